@@ -354,6 +354,27 @@ example : (parseChunks threePieces).status ≠ .err ∧
 example : (PSt.fresh.parseBy (fuelFor threePieces) .resetAdd threePieces).1.exprs = (parseChunks threePieces).exprs :=
   (stepwise_is_run_partial PSt.fresh threePieces _ (Nat.le_refl _) (by decide +kernel)).2
 
+/-- **`stepwise_is_run_until_done`**: with the fuel of the delivery model, as long as no
+`ParseTokens` call before the last answers `done` (every piece but the last leaves the text
+unfinished: the coroutine is resumed, no new `ParsingIter`, so no new fuel), the call-by-call
+protocol gives the status and the expressions of `parseChunks` WHATEVER the outcome — also when the
+parse ends in an error (a syntax error in any piece, or the fuel of the model). -/
+theorem stepwise_is_run_until_done (p : PSt) (cs : List (List Char))
+    (hnd : Status.done ∉ (p.parseBy (fuelFor cs) .resetAdd cs).1.trace) :
+    (p.parseBy (fuelFor cs) .resetAdd cs).1.status = (parseChunks cs).status ∧
+    (p.parseBy (fuelFor cs) .resetAdd cs).1.exprs = (parseChunks cs).exprs := by
+  have hst := status_of_run LexState.init cs
+  have hex := (parseChunksFrom_eq_abstract LexState.init cs).2
+  obtain ⟨a1, a2⟩ := parseBy_nodone (fuelFor cs) p cs _ rfl hnd
+  unfold parseChunks
+  exact ⟨a1.trans hst.symm, a2.trans hex.symm⟩
+
+/-- three pieces, the first two unfinished, a syntax error in the third: `(a [b )` — `)` where `]` is due -/
+def threeBad : List (List Char) := ["(a ".toList, "[b ".toList, ")".toList]
+
+example : (PSt.fresh.parseBy (fuelFor threeBad) .resetAdd threeBad).1.trace = [.more, .more] ∧
+    (parseChunks threeBad).status = .err := by decide +kernel
+
 /-- … and the same after any history, by any reset route (`protocol_reset_forgets`) -/
 theorem stepwise_is_run_after_history (p : PSt) (r : Route) (hr : r.isReset = true)
     (hr' : r ≠ .resetAddLexerFirst ∧ r ≠ .resetNewLexerFirst) (cs : List (List Char)) (F : Nat)
